@@ -149,6 +149,21 @@ def run_pair(job):
     ob, cb = passes.outcome(lambda: passes.parse_prog(job['prog'], tb))
     if ca is None or cb is None:
         return {'id': job['id'], 'kind': 'skip'}
+    if job.get('wrap'):
+        # the same pair written with comments around and inside the code (layout only): the circuits that are COMPARED come
+        # from the commented texts, the programs whose declarations and meaning the specification compares are those of the
+        # plain texts - a change of meaning must make the circuits unequal however the texts are laid out
+        def wrap(t):
+            lines = t.split('\n')
+            return '/* head\n   of the file */\n' + '\n'.join(l + ' // c' if j % 2 == 0 and l else l for j, l in enumerate(lines)) + '\n/* tail */\n'
+        _, ca2 = passes.outcome(lambda: passes.parse_prog(job['prog'], wrap(ta)))
+        _, cb2 = passes.outcome(lambda: passes.parse_prog(job['prog'], wrap(tb)))
+        if ca2 is None or cb2 is None:
+            return {'id': job['id'], 'kind': 'eq', 'what': job['what'] + ' [commented]', 'ta': wrap(ta), 'tb': wrap(tb), 'a': oa['prog'], 'b': ob['prog'],
+                    'eq_ab': True, 'eq_ba': True, 'eq_aa': False, 'eq_bb': False, 'rt_a': False, 'same_tokens': ta == tb}
+        ca, cb = ca2, cb2
+        ta, tb = wrap(ta), wrap(tb)
+        job = dict(job, what=job['what'] + ' [commented]')
     rt = False
     try:
         rt = bool(ca == passes.parse_prog(job['prog'], generate_jaqal_program(ca)))
@@ -176,6 +191,8 @@ def main(tier):
             jobs.append({'id': '%s/%d/same' % (name, n), 'prog': p, 'ta': ta, 'tb': ta, 'what': 'identical text'})
             for m, (what, q) in enumerate(mutants(p)):
                 jobs.append({'id': '%s/%d/m%d' % (name, n, m), 'prog': p, 'ta': ta, 'tb': render.render_prog(q), 'what': what})
+                if (n + m) % 5 == 0:
+                    jobs.append({'id': '%s/%d/m%d/cm' % (name, n, m), 'prog': p, 'ta': ta, 'tb': render.render_prog(q), 'what': what, 'wrap': True})
             for m, (what, qa, qb) in enumerate(twin_pairs(p)):
                 jobs.append({'id': '%s/%d/t%d' % (name, n, m), 'prog': p, 'ta': render.render_prog(qa), 'tb': render.render_prog(qb), 'what': what})
     rep.phase('tlc_enumeration')
